@@ -15,6 +15,7 @@ Definition oids (os : list obj) : list Z := map oid os.
 Definition wf_ev (e : ev) : Prop :=
   match e with
   | Subscribe _ _ _ _ (Some l) => 0 <= l
+  | SubscribeNow _ _ _ _ (Some l) => 0 <= l
   | Advance t => 0 <= t
   | _ => True
   end.
@@ -167,43 +168,41 @@ Proof.
   - destruct Hin as [->|Hin]; [rewrite Z.eqb_refl in E; discriminate|]. apply IH; assumption.
 Qed.
 
-(* ------------------------------------------------------------------ drain *)
-Lemma exec_all_oids : forall nw sb os, oids (fst (exec_all nw sb os)) = oids os.
+(* ------------------------------------------------------------------ the deferred functions *)
+Lemma run_dfn_facts : forall s d s1 ns, run_dfn s d = (s1, ns) ->
+  now s1 = now s /\ subs s1 = subs s /\ ctr s1 = ctr s /\ queue s1 = queue s /\ oids (objs s1) = oids (objs s) /\
+  forall n, In n ns -> exists ob x, In ob (objs s) /\ In x (subs s) /\ s_oid x = oid ob /\ n = mk_ntf (now s) ob x.
 Proof.
-  intros nw sb. induction os as [|o r IH]; [reflexivity|]. cbn.
-  destruct (exec_obj nw sb o) as [o' n1] eqn:E1. destruct (exec_all nw sb r) as [r' n2] eqn:E2. cbn in *.
-  rewrite IH. f_equal. unfold exec_obj in E1. destruct (trig o); inversion E1; subst; cbn; [apply oid_report|reflexivity].
+  intros s d s1 ns H. destruct d as [o g|i]; cbn in H.
+  - destruct (find_obj o (objs s)) as [ob|] eqn:F.
+    + apply find_obj_some in F as [Fin Foid]. destruct (bound ob && (gen ob =? g)); inversion H; subst s1 ns; cbn.
+      * repeat split; auto. { apply oids_upd_obj. intros _ _. cbn. rewrite oid_report. exact Foid. }
+        intros n Hn. apply in_map_iff in Hn as [x [<- Hx]]. unfold subs_of in Hx. apply filter_In in Hx as [Hx Ho].
+        apply Z.eqb_eq in Ho. exists ob, x. repeat split; auto. congruence.
+      * repeat split; auto. intros n [].
+    + inversion H; subst. repeat split; auto. intros n [].
+  - destruct (find_id i (subs s)) as [x|] eqn:FI.
+    + unfold find_id in FI. apply find_some in FI as [Hx _].
+      destruct (find_obj (s_oid x) (objs s)) as [ob|] eqn:F; inversion H; subst s1 ns; cbn.
+      * apply find_obj_some in F as [Fin Foid]. repeat split; auto.
+        { apply oids_upd_obj. intros _ _. rewrite oid_report. exact Foid. }
+        intros n [<-|[]]. exists ob, x. auto.
+      * repeat split; auto. intros n [].
+    + inversion H; subst. repeat split; auto. intros n [].
 Qed.
 
-Lemma exec_all_ntfs : forall nw sb os n, In n (snd (exec_all nw sb os)) <->
-  exists o x, In o os /\ trig o = true /\ In x sb /\ s_oid x = oid o /\ n = mk_ntf nw o x.
+Lemma run_queue_facts : forall q s s1 ns, run_queue q s = (s1, ns) ->
+  now s1 = now s /\ subs s1 = subs s /\ ctr s1 = ctr s /\ queue s1 = queue s /\ oids (objs s1) = oids (objs s) /\
+  forall n, In n ns -> exists x, In x (subs s) /\ exists ob, n = mk_ntf (now s) ob x.
 Proof.
-  intros nw sb. induction os as [|o r IH]; intro n.
-  - cbn. split; [intros []|intros [o [x [[] _]]]].
-  - cbn. destruct (exec_obj nw sb o) as [o' n1] eqn:E1. destruct (exec_all nw sb r) as [r' n2] eqn:E2. cbn in *.
-    rewrite in_app_iff, IH. unfold exec_obj in E1. split.
-    + intros [H|[o2 [x H]]].
-      * destruct (trig o) eqn:Ht; inversion E1; subst; [|destruct H].
-        apply in_map_iff in H as [x [Hn Hx]]. unfold subs_of in Hx. apply filter_In in Hx as [Hx Ho].
-        apply Z.eqb_eq in Ho. exists o, x. auto 6.
-      * exists o2, x. intuition.
-    + intros [o2 [x [[->|Hin] [Ht [Hx [Ho Hn]]]]]].
-      * left. rewrite Ht in E1. inversion E1; subst. apply in_map. unfold subs_of. apply filter_In.
-        split; [assumption|]. apply Z.eqb_eq. assumption.
-      * right. exists o2, x. auto.
+  induction q as [|d r IH]; intros s s1 ns H; cbn in H.
+  - inversion H; subst. repeat split; auto. intros n [].
+  - destruct (run_dfn s d) as [sa na] eqn:E1. destruct (run_queue r sa) as [sb nb] eqn:E2. inversion H; subst s1 ns.
+    apply run_dfn_facts in E1 as [A1 [A2 [A3 [A4 [A5 A6]]]]]. apply IH in E2 as [B1 [B2 [B3 [B4 [B5 B6]]]]].
+    repeat split; try congruence. intros n Hn. apply in_app_or in Hn as [Hn|Hn].
+    + destruct (A6 n Hn) as [ob [x [_ [Hx [_ ->]]]]]. exists x. split; [exact Hx|]. eauto.
+    + destruct (B6 n Hn) as [x [Hx [ob ->]]]. exists x. rewrite <- A2, <- A1. eauto.
 Qed.
-
-Lemma exec_all_clears : forall nw sb os o, In o (fst (exec_all nw sb os)) -> trig o = false.
-Proof.
-  intros nw sb. induction os as [|a r IH]; intros o H; [destruct H|]. cbn in H.
-  destruct (exec_obj nw sb a) as [o' n1] eqn:E1. destruct (exec_all nw sb r) as [r' n2] eqn:E2. cbn in *.
-  destruct H as [<-|H]; [|apply IH; assumption].
-  unfold exec_obj in E1. destruct (trig a) eqn:Ht; inversion E1; subst; [reflexivity|assumption].
-Qed.
-
-Lemma drain_spec : forall s, drain s =
-  (mkSt (now s) (ctr s) (fst (exec_all (now s) (subs s) (objs s))) (subs s), snd (exec_all (now s) (subs s) (objs s))).
-Proof. intro s. unfold drain. destruct (exec_all (now s) (subs s) (objs s)). reflexivity. Qed.
 
 (* ------------------------------------------------------------------ sorting keeps the elements *)
 Lemma In_insert_by : forall {A} (le : A -> A -> bool) x y l, In y (insert_by le x l) <-> y = x \/ In y l.
@@ -339,8 +338,8 @@ Lemma sub_live_weaken : forall nw x, sub_live nw x -> sub_live_le (nw + 1) x.
 Proof. intros nw x. unfold sub_live, sub_live_le. destruct (s_task x) as [[t k]|]; [lia|auto]. Qed.
 
 Lemma tick_J : forall s, NoDup (keys (subs s)) -> Forall (sub_live (now s)) (subs s) ->
-  Jinv (sort_by (fun a b => fst a <=? fst b) (due_items (mkSt (now s + 1) (ctr s) (objs s) (subs s))))
-       (mkSt (now s + 1) (ctr s) (objs s) (subs s)).
+  Jinv (sort_by (fun a b => fst a <=? fst b) (due_items (mkSt (now s + 1) (ctr s) (objs s) (subs s) (queue s))))
+       (mkSt (now s + 1) (ctr s) (objs s) (subs s) (queue s)).
 Proof.
   intros s Hnd Hlive. split; [exact Hnd|]. split.
   - cbn. apply Forall_forall. intros x Hx. rewrite Forall_forall in Hlive. apply sub_live_weaken. auto.
@@ -415,147 +414,167 @@ Proof.
   unfold key in Hk. inversion Hk as [[H1 H2 H3]]. rewrite H1, H2, H3 in Fx. congruence.
 Qed.
 
-Lemma renew_live : forall nw c p o cf lf k, 0 <= lf ->
-  sub_live nw (mkSub c p o cf lf (if lf =? 0 then None else Some (nw + lf * TICKS, k))).
+Lemma renew_live : forall nw c p o cf lf k i, 0 <= lf ->
+  sub_live nw (mkSub c p o cf lf (if lf =? 0 then None else Some (nw + lf * TICKS, k)) i).
 Proof. intros. unfold sub_live, TICKS. cbn. destruct (lf =? 0) eqn:E; cbn; lia. Qed.
-Lemma new_live : forall nw c p o cf lf k, 0 <= lf ->
-  sub_live nw (mkSub c p o cf lf (if 0 <? lf then Some (nw + lf * TICKS, k) else None)).
+Lemma new_live : forall nw c p o cf lf k i, 0 <= lf ->
+  sub_live nw (mkSub c p o cf lf (if 0 <? lf then Some (nw + lf * TICKS, k) else None) i).
 Proof. intros. unfold sub_live, TICKS. cbn. destruct (0 <? lf) eqn:E; cbn; lia. Qed.
 Lemma live_le : forall nw x, sub_live nw x -> sub_live_le nw x.
 Proof. intros nw x. unfold sub_live, sub_live_le. destruct (s_task x) as [[t k]|]; [lia|auto]. Qed.
 
 Definition life_of (life : option Z) : Z := match life with None => 0 | Some l => l end.
 
-Lemma do_subscribe_facts : forall s c p o cf life pre s' out,
-  inv s -> 0 <= life_of life -> do_subscribe s c p o cf life pre = (s', out) ->
+Lemma subscribe_now_facts : forall s c p o cf life s' ok code,
+  inv s -> 0 <= life_of life -> subscribe_now s c p o cf life = (s', ok, code) ->
   inv s' /\ now s' = now s /\
   (forall x', In x' (subs s') -> In x' (subs s) \/ key x' = (c, p, o)) /\
-  (forall n, In n (o_ntfs out) -> In n pre \/
-     exists x, In x (subs s') /\ key x = (c, p, o) /\ ntf_of (now s) x n /\ sub_live (now s) x).
+  (forall x, In x (subs s) -> key x <> (c, p, o) -> In x (subs s')).
 Proof.
-  intros s c p o cf life pre s' out [Hnd [Hod Hlive]] Hlf H. unfold do_subscribe in H.
+  intros s c p o cf life s' ok code [Hnd [Hod Hlive]] Hlf H. unfold subscribe_now in H.
   fold (life_of life) in H. set (lf := life_of life) in *.
-  assert (Hsame : (s', o_ntfs out) = (s, pre) ->
-     inv s' /\ now s' = now s /\ (forall x', In x' (subs s') -> In x' (subs s) \/ key x' = (c, p, o)) /\
-     (forall n, In n (o_ntfs out) -> In n pre \/
-        exists x, In x (subs s') /\ key x = (c, p, o) /\ ntf_of (now s) x n /\ sub_live (now s) x)).
-  { intro E. inversion E as [[E1 E2]]. rewrite E2. subst s'. repeat split; auto. }
+  assert (Hsame : s' = s -> inv s' /\ now s' = now s /\ (forall x', In x' (subs s') -> In x' (subs s) \/ key x' = (c, p, o)) /\
+     (forall x, In x (subs s) -> key x <> (c, p, o) -> In x (subs s'))).
+  { intros ->. repeat split; auto. }
   destruct (find_obj o (objs s)) as [ob|] eqn:F; [|inversion H; subst; apply Hsame; reflexivity].
   apply find_obj_some in F as [Fin Foid].
-  assert (Hoid2 : forall g ob', oid ob' = o -> oid (report (g (bind_obj ob))) = o ->
-                   oid ((fun _ : obj => report (g (bind_obj ob))) ob') = o) by auto.
   destruct (okind ob) eqn:K; try (inversion H; subst; apply Hsame; reflexivity).
-  all: destruct (find_sub c p o (subs s)) as [y|] eqn:FS; inversion H; subst s' out; clear H; unfold inv; cbn [now subs objs o_ntfs ack_out].
+  all: destruct (find_sub c p o (subs s)) as [y|] eqn:FS; inversion H; subst s' ok code; clear H; unfold inv; cbn [now subs objs].
   all: try (apply find_sub_some in FS as [Hy Hky]).
   all: try (pose proof (find_sub_none _ _ _ _ FS) as Hnone).
-  (* renewals *)
   1,3,5: split; [split; [rewrite keys_replace by reflexivity; exact Hnd|split;
-                 [rewrite oids_upd_obj; [exact Hod|intros ob' _; cbn; rewrite oid_report, oid_bind; exact Foid]|
+                 [rewrite oids_upd_obj; [exact Hod|intros ob' _; cbn; rewrite oid_bind; exact Foid]|
                   apply Forall_forall; intros x Hx; apply in_map_iff in Hx as [x0 [<- Hx0]];
                   destruct (key_eqb c p o x0); [apply renew_live; exact Hlf|rewrite Forall_forall in Hlive; auto]]]|];
          split; [reflexivity|]; split;
-         [intros x' Hx; apply in_map_iff in Hx as [x0 [<- Hx0]]; destruct (key_eqb c p o x0); [right; reflexivity|left; exact Hx0]|];
-         intros n Hn; apply in_app_or in Hn as [Hn|[<-|[]]]; [left; exact Hn|right];
-         eexists; split; [apply in_map_iff; exists y; split; [|exact Hy]; apply key_eqb_iff in Hky; rewrite Hky; reflexivity|];
-         split; [reflexivity|]; split; [apply mk_ntf_of|apply renew_live; exact Hlf].
-  (* new subscriptions *)
+         [intros x' Hx; apply in_map_iff in Hx as [x0 [<- Hx0]]; destruct (key_eqb c p o x0); [right; reflexivity|left; exact Hx0]|
+          intros x Hx Hk; apply in_map_iff; exists x; split; [|exact Hx];
+          destruct (key_eqb c p o x) eqn:E; [apply key_eqb_iff in E; contradiction|reflexivity]].
   all: split; [split; [unfold keys; rewrite map_app; apply NoDup_snoc; [exact Hnd|exact Hnone]|split;
                [rewrite oids_upd_obj; [exact Hod|intros ob' _; cbn;
                   repeat match goal with |- context [if ?b then _ else _] => destruct b end;
-                  rewrite oid_report; cbn; try rewrite oid_bind; exact Foid]|
+                  cbn; try rewrite oid_bind; exact Foid]|
                 apply Forall_app; split; [exact Hlive|constructor; [apply new_live; exact Hlf|constructor]]]]|];
        split; [reflexivity|]; split;
-       [intros x' Hx; apply in_app_or in Hx as [Hx|[<-|[]]]; [left; exact Hx|right; reflexivity]|];
-       intros n Hn; apply in_app_or in Hn as [Hn|[<-|[]]]; [left; exact Hn|right];
-       eexists; split; [apply in_or_app; right; left; reflexivity|];
-       split; [reflexivity|]; split; [apply mk_ntf_of|apply new_live; exact Hlf].
+       [intros x' Hx; apply in_app_or in Hx as [Hx|[<-|[]]]; [left; exact Hx|right; reflexivity]|
+        intros x Hx _; apply in_or_app; left; exact Hx].
 Qed.
 
-Lemma do_cancel_facts : forall s c p o pre s' out,
-  inv s -> do_cancel s c p o pre = (s', out) ->
-  inv s' /\ now s' = now s /\ (forall x', In x' (subs s') -> In x' (subs s)) /\ o_ntfs out = pre /\
-  (o_ack out = 1 -> ~ In (c, p, o) (keys (subs s'))) /\
+Lemma cancel_now_facts : forall s c p o s' ok code,
+  inv s -> cancel_now s c p o = (s', ok, code) ->
+  inv s' /\ now s' = now s /\ (forall x', In x' (subs s') -> In x' (subs s)) /\
+  (ok = true -> ~ In (c, p, o) (keys (subs s'))) /\
   (forall x, In x (subs s) -> key x <> (c, p, o) -> In x (subs s')).
 Proof.
-  intros s c p o pre s' out [Hnd [Hod Hlive]] H. unfold do_cancel in H.
-  assert (Hsame : (s', o_ntfs out, o_ack out) = (s, pre, 2) ->
-     inv s' /\ now s' = now s /\ (forall x', In x' (subs s') -> In x' (subs s)) /\ o_ntfs out = pre /\
-     (o_ack out = 1 -> ~ In (c, p, o) (keys (subs s'))) /\
+  intros s c p o s' ok code [Hnd [Hod Hlive]] H. unfold cancel_now in H.
+  assert (Hsame : (s', ok) = (s, false) ->
+     inv s' /\ now s' = now s /\ (forall x', In x' (subs s') -> In x' (subs s)) /\
+     (ok = true -> ~ In (c, p, o) (keys (subs s'))) /\
      (forall x, In x (subs s) -> key x <> (c, p, o) -> In x (subs s'))).
-  { intro E. inversion E as [[E1 E2 E3]]. subst s'. repeat split; auto. intro; lia. }
+  { intro E. inversion E; subst. repeat split; auto. discriminate. }
   destruct (find_obj o (objs s)) as [ob|] eqn:F; [|inversion H; subst; apply Hsame; reflexivity].
   destruct (okind ob) eqn:K; try (inversion H; subst; apply Hsame; reflexivity).
   all: assert (Hbind : oids (upd_obj o bind_obj (objs s)) = oids (objs s))
          by (apply oids_upd_obj; intros ob' E; rewrite oid_bind; exact E).
-  all: destruct (find_sub c p o (subs s)) as [y|] eqn:FS; inversion H; subst s' out; clear H; unfold inv;
-       cbn [now subs objs o_ntfs o_ack ack_out].
-  1,3,5: rewrite drop_sub_oids; cbn [objs]; rewrite Hbind; split;
+  all: destruct (find_sub c p o (subs s)) as [y|] eqn:FS; inversion H; subst s' ok code; clear H; unfold inv;
+       cbn [now subs objs set_objs].
+  1,3,5: rewrite drop_sub_oids; cbn [objs set_objs]; rewrite Hbind; split;
          [split; [apply NoDup_map_filter; exact Hnd|split; [exact Hod|
             apply Forall_forall; intros x Hx; apply remove_sub_in in Hx as [Hx _]; rewrite Forall_forall in Hlive; auto]]|];
-         split; [reflexivity|]; split; [intros x' Hx; apply remove_sub_in in Hx; tauto|]; split; [reflexivity|];
+         split; [reflexivity|]; split; [intros x' Hx; apply remove_sub_in in Hx; tauto|];
          split; [intros _ Hin; apply keys_remove in Hin; tauto|intros x Hx Hk; apply remove_sub_in; auto].
-  all: rewrite Hbind; split; [auto|]; split; [reflexivity|]; split; [auto|]; split; [reflexivity|];
+  all: rewrite Hbind; split; [auto|]; split; [reflexivity|]; split; [auto|];
        split; [intros _; exact (find_sub_none _ _ _ _ FS)|auto].
 Qed.
 
 (* ------------------------------------------------------------------ one event *)
 Definition is_subscribe_of (k : Z * Z * Z) (e : ev) : Prop :=
-  match e with Subscribe c p o _ _ => k = (c, p, o) | _ => False end.
+  match e with Subscribe c p o _ _ => k = (c, p, o) | SubscribeNow c p o _ _ => k = (c, p, o) | _ => False end.
 
 Lemma drain_facts : forall s s1 ns, inv s -> drain s = (s1, ns) ->
-  inv s1 /\ now s1 = now s /\ subs s1 = subs s /\
+  inv s1 /\ now s1 = now s /\ subs s1 = subs s /\ queue s1 = [] /\
   (forall n, In n ns -> exists x, In x (subs s) /\ ntf_of (now s) x n /\ sub_live (now s) x).
 Proof.
-  intros s s1 ns [Hnd [Hod Hlive]] H. rewrite drain_spec in H. inversion H; subst s1 ns; clear H.
-  unfold inv. cbn [now subs objs]. rewrite exec_all_oids. repeat split; auto.
-  intros n Hn. apply exec_all_ntfs in Hn as [o [x [_ [_ [Hx [_ ->]]]]]]. exists x. split; [exact Hx|].
+  intros s s1 ns [Hnd [Hod Hlive]] H. unfold drain in H. apply run_queue_facts in H as [A [B [C [D [E F]]]]].
+  cbn in *. unfold inv. rewrite A, B, E. repeat split; auto.
+  intros n Hn. destruct (F n Hn) as [x [Hx [ob ->]]]. exists x. split; [exact Hx|].
   split; [apply mk_ntf_of|]. rewrite Forall_forall in Hlive. auto.
 Qed.
 
-Lemma step_facts : forall s e s' out, inv s -> wf_ev e -> step s e = (s', out) ->
+Lemma run_dfn_step_facts : forall s d s1 ns, inv s -> run_dfn s d = (s1, ns) ->
+  inv s1 /\ now s1 = now s /\ subs s1 = subs s /\
+  (forall n, In n ns -> exists x, In x (subs s) /\ ntf_of (now s) x n /\ sub_live (now s) x).
+Proof.
+  intros s d s1 ns [Hnd [Hod Hlive]] H. apply run_dfn_facts in H as [A [B [C [D [E F]]]]].
+  unfold inv. rewrite A, B, E. repeat split; auto.
+  intros n Hn. destruct (F n Hn) as [ob [x [_ [Hx [_ ->]]]]]. exists x. split; [exact Hx|].
+  split; [apply mk_ntf_of|]. rewrite Forall_forall in Hlive. auto.
+Qed.
+
+Lemma inv_set_queue : forall s q, inv s -> inv (set_queue s q).
+Proof. intros s q H. exact H. Qed.
+
+Definition step_post (s : st) (e : ev) (s' : st) (out : out) : Prop :=
   inv s' /\ now s <= now s' /\
   (forall x', In x' (subs s') -> In x' (subs s) \/ is_subscribe_of (key x') e) /\
   (forall n, In n (o_ntfs out) -> exists x tau,
      (In x (subs s) \/ (In x (subs s') /\ is_subscribe_of (key x) e)) /\
      now s <= tau <= now s' /\ ntf_of tau x n /\ sub_live_le tau x).
+
+Lemma req_out_ntfs : forall tag ok code ns, o_ntfs (req_out tag ok code ns) = ns.
+Proof. intros. unfold req_out. destruct ok; reflexivity. Qed.
+
+Lemma step_facts : forall s e s' out, inv s -> wf_ev e -> step s e = (s', out) -> step_post s e s' out.
 Proof.
-  intros s e s' out Hinv Hwf H. destruct e as [i p v| |c p o cf life|c p o|t|c]; cbn [step] in H.
+  intros s e s' out Hinv Hwf H. unfold step_post.
+  destruct e as [i p v| |c p o cf life|c p o|t|c| |c p o cf life|c p o|c]; cbn [step] in H.
   - (* Write *)
-    assert (Hsame : forall os, oids os = oids (objs s) -> s' = mkSt (now s) (ctr s) os (subs s) -> o_ntfs out = [] ->
+    unfold write_ev in H.
+    assert (Hsame : forall os q, oids os = oids (objs s) -> s' = mkSt (now s) (ctr s) os (subs s) q -> o_ntfs out = [] ->
         inv s' /\ now s <= now s' /\ (forall x', In x' (subs s') -> In x' (subs s) \/ False) /\
         (forall n, In n (o_ntfs out) -> exists x tau, (In x (subs s) \/ (In x (subs s') /\ False)) /\
             now s <= tau <= now s' /\ ntf_of tau x n /\ sub_live_le tau x)).
-    { intros os Ho -> Hn. rewrite Hn. destruct Hinv as [A [B C]]. unfold inv. cbn [now subs objs]. rewrite Ho.
+    { intros os q Ho -> Hn. rewrite Hn. destruct Hinv as [A [B C]]. unfold inv. cbn [now subs objs]. rewrite Ho.
       repeat split; auto; try lia. intros n []. }
     destruct (nth_error (objs s) i) as [ob|].
     + destruct (has_prop (okind ob) p); inversion H; subst s' out.
       * eapply Hsame; [|reflexivity|reflexivity]. apply oids_upd_nth. intro. apply oid_write_obj.
-      * eapply (Hsame (objs s)); [reflexivity|destruct s; reflexivity|reflexivity].
-    + inversion H; subst s' out. eapply (Hsame (objs s)); [reflexivity|destruct s; reflexivity|reflexivity].
+      * eapply (Hsame (objs s) (queue s)); [reflexivity|destruct s; reflexivity|reflexivity].
+    + inversion H; subst s' out. eapply (Hsame (objs s) (queue s)); [reflexivity|destruct s; reflexivity|reflexivity].
   - (* Drain *)
     destruct (drain s) as [s1 ns] eqn:D. inversion H; subst s' out; clear H.
-    destruct (drain_facts _ _ _ Hinv D) as [A [B [C Hn]]]. cbn [o_ntfs]. split; [exact A|]. split; [lia|].
+    destruct (drain_facts _ _ _ Hinv D) as [A [B [C [_ Hn]]]]. cbn [o_ntfs]. split; [exact A|]. split; [lia|].
     split; [rewrite C; auto|]. intros n Hin. destruct (Hn n Hin) as [x [Hx [Hof Hl]]].
     exists x, (now s). split; [auto|]. split; [lia|]. split; [exact Hof|apply live_le; exact Hl].
-  - (* Subscribe *)
-    destruct (drain s) as [s1 ns] eqn:D. destruct (drain_facts _ _ _ Hinv D) as [A [B [C Hn]]].
+  - (* Subscribe = Drain; SubscribeNow; Drain *)
+    destruct (drain s) as [s1 n1] eqn:D1. destruct (drain_facts _ _ _ Hinv D1) as [A1 [B1 [C1 [_ Hn1]]]].
     assert (Hlf : 0 <= life_of life) by (destruct life; cbn in *; lia).
-    destruct (do_subscribe_facts _ _ _ _ _ _ _ _ _ A Hlf H) as [A' [B' [C' Hn']]].
-    split; [exact A'|]. split; [lia|]. split.
-    + intros x' Hx. destruct (C' x' Hx) as [Hin|Hk]; [left; rewrite <- C; exact Hin|right; exact Hk].
-    + intros n Hin. destruct (Hn' n Hin) as [Hpre|[x [Hx [Hk [Hof Hl]]]]].
-      * destruct (Hn n Hpre) as [x [Hx [Hof Hl]]]. exists x, (now s). split; [auto|]. split; [lia|].
+    destruct (subscribe_now s1 c p o cf life) as [[s2 ok] code] eqn:SN.
+    destruct (subscribe_now_facts _ _ _ _ _ _ _ _ _ A1 Hlf SN) as [A2 [B2 [C2 _]]].
+    destruct (drain s2) as [s3 n3] eqn:D3. destruct (drain_facts _ _ _ A2 D3) as [A3 [B3 [C3 [_ Hn3]]]].
+    inversion H; subst s' out; clear H. rewrite req_out_ntfs.
+    split; [exact A3|]. split; [lia|]. split.
+    + intros x' Hx. rewrite C3 in Hx. destruct (C2 x' Hx) as [Hin|Hk]; [left; rewrite <- C1; exact Hin|right; exact Hk].
+    + intros n Hin. apply in_app_or in Hin as [Hin|Hin].
+      * destruct (Hn1 n Hin) as [x [Hx [Hof Hl]]]. exists x, (now s). split; [auto|]. split; [lia|].
         split; [exact Hof|apply live_le; exact Hl].
-      * exists x, (now s). split; [right; split; [exact Hx|exact Hk]|]. split; [lia|]. rewrite B in Hof, Hl.
-        split; [exact Hof|apply live_le; exact Hl].
-  - (* Cancel *)
-    destruct (drain s) as [s1 ns] eqn:D. destruct (drain_facts _ _ _ Hinv D) as [A [B [C Hn]]].
-    destruct (do_cancel_facts _ _ _ _ _ _ _ A H) as [A' [B' [C' [Hn' _]]]].
-    split; [exact A'|]. split; [lia|]. split; [intros x' Hx; left; rewrite <- C; auto|].
-    intros n Hin. rewrite Hn' in Hin. destruct (Hn n Hin) as [x [Hx [Hof Hl]]]. exists x, (now s).
-    split; [auto|]. split; [lia|]. split; [exact Hof|apply live_le; exact Hl].
+      * destruct (Hn3 n Hin) as [x [Hx [Hof Hl]]]. exists x, (now s). rewrite B2, B1 in Hof, Hl. split.
+        { destruct (C2 x Hx) as [Hin2|Hk]; [left; rewrite <- C1; exact Hin2|right; split; [rewrite C3; exact Hx|exact Hk]]. }
+        split; [lia|]. split; [exact Hof|apply live_le; exact Hl].
+  - (* Cancel = Drain; CancelNow; Drain *)
+    destruct (drain s) as [s1 n1] eqn:D1. destruct (drain_facts _ _ _ Hinv D1) as [A1 [B1 [C1 [_ Hn1]]]].
+    destruct (cancel_now s1 c p o) as [[s2 ok] code] eqn:CN.
+    destruct (cancel_now_facts _ _ _ _ _ _ _ A1 CN) as [A2 [B2 [C2 _]]].
+    destruct (drain s2) as [s3 n3] eqn:D3. destruct (drain_facts _ _ _ A2 D3) as [A3 [B3 [C3 [_ Hn3]]]].
+    inversion H; subst s' out; clear H. rewrite req_out_ntfs.
+    split; [exact A3|]. split; [lia|]. split; [intros x' Hx; left; rewrite C3 in Hx; rewrite <- C1; auto|].
+    intros n Hin. apply in_app_or in Hin as [Hin|Hin].
+    + destruct (Hn1 n Hin) as [x [Hx [Hof Hl]]]. exists x, (now s). split; [auto|]. split; [lia|].
+      split; [exact Hof|apply live_le; exact Hl].
+    + destruct (Hn3 n Hin) as [x [Hx [Hof Hl]]]. exists x, (now s). rewrite B2, B1 in Hof, Hl.
+      split; [left; rewrite <- C1; auto|]. split; [lia|]. split; [exact Hof|apply live_le; exact Hl].
   - (* Advance *)
-    destruct (drain s) as [s1 n1] eqn:D. destruct (drain_facts _ _ _ Hinv D) as [[A1 [A2 A3]] [B [C Hn]]].
+    destruct (drain s) as [s1 n1] eqn:D. destruct (drain_facts _ _ _ Hinv D) as [[A1 [A2 A3]] [B [C [_ Hn]]]].
     pose proof (ticks_inv (Z.to_nat t) s1 A1 A3) as T. pose proof (ticks_ntfs (Z.to_nat t) s1) as TN.
     destruct (ticks (Z.to_nat t) s1) as [s2 n2]. cbn in T, TN. inversion H; subst s' out; clear H.
     destruct T as [T1 [T2 [T3 [T4 T5]]]]. cbn in Hwf. cbn [o_ntfs].
@@ -567,7 +586,28 @@ Proof.
       split; [lia|]. auto.
   - (* ReadActive *)
     destruct (drain s) as [s1 ns] eqn:D. inversion H; subst s' out; clear H.
-    destruct (drain_facts _ _ _ Hinv D) as [A [B [C Hn]]]. cbn [o_ntfs]. split; [exact A|]. split; [lia|].
+    destruct (drain_facts _ _ _ Hinv D) as [A [B [C [_ Hn]]]]. cbn [o_ntfs]. split; [exact A|]. split; [lia|].
     split; [rewrite C; auto|]. intros n Hin. destruct (Hn n Hin) as [x [Hx [Hof Hl]]].
     exists x, (now s). split; [auto|]. split; [lia|]. split; [exact Hof|apply live_le; exact Hl].
+  - (* StepQ *)
+    destruct (queue s) as [|d r] eqn:Q.
+    + inversion H; subst s' out. cbn [o_ntfs]. split; [exact Hinv|]. split; [lia|]. split; [auto|]. intros n [].
+    + destruct (run_dfn (set_queue s r) d) as [s1 ns] eqn:R. inversion H; subst s' out; clear H.
+      destruct (run_dfn_step_facts _ _ _ _ (inv_set_queue s r Hinv) R) as [A [B [C Hn]]]. cbn in B, C, Hn. cbn [o_ntfs].
+      split; [exact A|]. split; [lia|]. split; [rewrite C; auto|]. intros n Hin.
+      destruct (Hn n Hin) as [x [Hx [Hof Hl]]]. exists x, (now s). split; [auto|]. split; [lia|].
+      split; [exact Hof|apply live_le; exact Hl].
+  - (* SubscribeNow *)
+    assert (Hlf : 0 <= life_of life) by (destruct life; cbn in *; lia).
+    destruct (subscribe_now s c p o cf life) as [[s2 ok] code] eqn:SN.
+    destruct (subscribe_now_facts _ _ _ _ _ _ _ _ _ Hinv Hlf SN) as [A2 [B2 [C2 _]]].
+    inversion H; subst s' out; clear H. rewrite req_out_ntfs. split; [exact A2|]. split; [lia|].
+    split; [intros x' Hx; destruct (C2 x' Hx); auto|]. intros n [].
+  - (* CancelNow *)
+    destruct (cancel_now s c p o) as [[s2 ok] code] eqn:CN.
+    destruct (cancel_now_facts _ _ _ _ _ _ _ Hinv CN) as [A2 [B2 [C2 _]]].
+    inversion H; subst s' out; clear H. rewrite req_out_ntfs. split; [exact A2|]. split; [lia|].
+    split; [intros x' Hx; left; auto|]. intros n [].
+  - (* ReadNow *)
+    inversion H; subst s' out. cbn [o_ntfs]. split; [exact Hinv|]. split; [lia|]. split; [auto|]. intros n [].
 Qed.
